@@ -342,10 +342,9 @@ class Sub:
 T1_QUICK = [('MC_StoreMapImpl_q1p_edges.cfg', 'n=3 keys=1 maxw=1 maxu=1 pre=1:2', None),
             ('MC_StoreMapImpl_qw_edges.cfg', 'n=2 keys=1 maxw=1', 400), ('MC_StoreMapImpl_qf1_edges.cfg', 'n=2 keys=1 maxw=1 pre=1:1', 400)]
 T1_THOROUGH = [('MC_StoreMapImpl_q1p_edges.cfg', 'n=3 keys=1 maxw=1 maxu=1 pre=1:2', None),
-               ('MC_StoreMapImpl_qa_edges.cfg', 'n=2 keys=1 maxw=1', 20000), ('MC_StoreMapImpl_qf2_edges.cfg', 'n=2 keys=1 maxw=1 pre=1:1', 20000),
-               ('MC_StoreMapImpl_qu1_edges.cfg', 'n=3 keys=1 maxw=1 maxu=1 pre=1:2', 20000),
-               ('MC_StoreMapImpl_wr_edges.cfg', 'n=2 keys=1 maxw=1', 20000), ('MC_StoreMapImpl_rf_edges.cfg', 'n=2 keys=1 maxw=1 pre=1:1', 20000),
-               ('MC_StoreMapImpl_u_edges.cfg', 'n=3 keys=1 maxw=1 maxu=1 pre=1:2', 20000)]
+               ('MC_StoreMapImpl_qa_edges.cfg', 'n=2 keys=1 maxw=1', None), ('MC_StoreMapImpl_qf2_edges.cfg', 'n=2 keys=1 maxw=1 pre=1:1', None),
+               ('MC_StoreMapImpl_qu1_edges.cfg', 'n=3 keys=1 maxw=1 maxu=1 pre=1:2', 8000),
+               ('MC_StoreMapImpl_wr_edges.cfg', 'n=2 keys=1 maxw=1', 8000), ('MC_StoreMapImpl_u_edges.cfg', 'n=3 keys=1 maxw=1 maxu=1 pre=1:2', 8000)]
 
 
 def edge_replay(ctx, exe, cfgname, drv_cfg, max_edges):
@@ -392,7 +391,7 @@ def scenario_runs(T, seed):
 
     def X(nf, scripts, cfg, variant='rl', **kw):
         # quick tier: all schedules are explored under the driver monitor, the first 200 distinct histories of a run go to TLC
-        kw.setdefault('hcap', 6000 if T else 200)
+        kw.setdefault('hcap', 4000 if T else 200)
         runs.append((variant, xcmd(nf, scripts, cfg, **kw), cfg))
     c1 = 'n=3 keys=1'
     c14 = 'n=3 keys=1,4'            # 4 % 3 = 1: the two keys share a name
@@ -431,22 +430,21 @@ def scenario_runs(T, seed):
     X(3, ['u:1', 'f:1', 'r0:1'], pre, variant='al')
     X(3, ['u:1', 'r:1', 'f:1'], pre, variant='al')
     if T:
-        X(3, ['u:1', 'f:1', 'r0:1'], pre)
-        X(3, ['u:1', 'r:1', 'f:1'], pre)
+        X(3, ['u:1', 'f:1', 'r0:1'], pre)          # F7 with three fibers at atomic granularity: 1.5 million states
         X(3, ['w:1', 'r:1', 'r:1'], c1)
         X(3, ['u:1', 'u:1', 'r:1'], 'n=4 keys=1 pre=1:2', variant='al')
         X(3, ['wp:1', 'rf:1', 'f:1'], c1)
     # --- every protocol-respecting call sequence (enabledOps), lock operations as single steps ---
     if T:
         c = 'n=3 keys=1 maxw=1'
-        runs.append(('al', 'X 2 3 3000000 6000 ' + c, c))
+        runs.append(('al', 'X 2 3 3000000 3000 ' + c, c))
         c = 'n=3 keys=1,4 maxw=1 pre=1:1 kinds=ow,ws,cw,or,rs,cr,cf,fk,fe'
-        runs.append(('al', 'X 2 3 3000000 6000 ' + c, c))
+        runs.append(('al', 'X 2 3 3000000 3000 ' + c, c))
     # --- the two findings on the unchanged code, with the driver monitor in strict mode: exact schedules for the report ---
     X(2, ['u:1', 'f:1+r0:1'], pre + ' strict=1', hcap=0)
     X(2, ['r:1', 'u:1+f:1'], pre + ' strict=1', variant='al', hcap=0)
     # --- T2: random walks, 4 fibers, 4 keys, 8 slices ---
-    nw = 2000 if T else 200
+    nw = 1500 if T else 200
     wc = 'n=8 keys=1,2,3,9 maxw=3 pre=1:2,2:1'
     runs.append(('rl', 'W 4 8 %d %d 0 %s' % (nw, seed + 1, wc), wc))
     wc2 = 'n=4 keys=1,5 maxw=2 pre=1:2'
@@ -584,7 +582,7 @@ def run(ctx):
         'TLC BFS of StoreIndex (P: 2 processes x 2 anchors, every result each call may produce; core operations, and the update '
         'cycle from a stored entry%s) and of StoreMapImpl (I: one action per shared access of all 16 calls, 2 processes x 2-3 calls, '
         'spurious lock failures, ghost invariants); edges of the I-graphs replayed on the real code with lock operations as single '
-        'steps (state and result equality; quick: the complete single-process graph of all 16 calls and seeded samples of 400 edges of two 2-process graphs; thorough: seven graphs, up to 20000 edges each); bounded exhaustive schedule exploration of the real Ipc::StoreMap over the real '
+        'steps (state and result equality; quick: the complete single-process graph of all 16 calls and seeded samples of 400 edges of two 2-process graphs; thorough: six graphs, three of them completely, up to 8000 edges of the others); bounded exhaustive schedule exploration of the real Ipc::StoreMap over the real '
         'Ipc::ReadWriteLock at atomic granularity (2-3 fibers running scripts of public calls: write, append, abort, read, '
         'read-and-free-idle, freeEntry, freeEntryByKey, purgeOne, update, abort update; name collisions; entries stored before) '
         'and with lock operations as single steps (3 fibers, every protocol-respecting call sequence of bounded length); seeded '
